@@ -238,7 +238,9 @@ impl Date {
 			Ok(Value::Date(result))
 		} else if rhs.unit_equal_to("year", int)? {
 			let num_years = rhs.try_as_usize_unit(int)?;
-			let num_months = num_years * 12;
+			let num_months = num_years
+				.checked_mul(12)
+				.ok_or(FendError::ValueTooLarge)?;
 			let result = self
 				.diff_months(-i64::try_from(num_months).map_err(|_| FendError::ValueTooLarge)?)?;
 			Ok(Value::Date(result))
